@@ -59,10 +59,12 @@ class Sim:
         opcode: bool = False,
         step_cap: int = 2_000_000,
         feed: Optional[List[Tuple[int, str]]] = None,
+        events: bool = True,
     ) -> None:
         self.rng = rng
         self.strategy = strategy
         self.opcode = opcode
+        self.events = events
         self.step_cap = step_cap
         # recorded decisions [step, thread, kind]; kind: "0" first, "s" switch at a
         # pre-emption point, "f" hand-off when a thread finished, "b" baton holder blocked
@@ -256,7 +258,8 @@ class Sim:
             t.thread = threading.Thread(target=self._body, args=(t,), name=f"sim-{name}", daemon=True)
             t.thread.start()
         ACTIVE = self
-        monitor.switch_on(self._on_line, self._on_instruction if self.opcode else None)
+        if self.events:
+            monitor.switch_on(self._on_line, self._on_instruction if self.opcode else None)
         try:
             if self.feed is not None:
                 first = self.threads[self.order[0]]
@@ -304,8 +307,22 @@ class Sim:
                     assert t.thread is not None
                     t.thread.join()
         finally:
-            monitor.switch_off()
+            if self.events:
+                monitor.switch_off()
             ACTIVE = None
+
+
+def run_guarded(fn: Callable[[], None]) -> Optional[BaseException]:
+    """Run fn() on ONE simulated thread without pre-emption events: nothing is scheduled, but
+    if fn blocks for ever inside a library call (a lock somebody added to the library, held by a
+    suspended iterator or by a thread that is gone) the stall detector ends the run as a Deadlock
+    instead of hanging the process.  Returns the Deadlock, an exception fn raised, or None."""
+    sim = Sim(random.Random(0), {"kind": "walk", "p": 0.0}, events=False)
+    sim.spawn("G", fn)
+    sim.run()
+    if sim.aborted is not None:
+        return sim.aborted
+    return sim.threads["G"].exc
 
 
 def _thread_state(native_id: int) -> str:
